@@ -519,7 +519,7 @@ def session_roundtrip(pattern, nstages=1):
                         "Header._read/_real_get_contents; sizes/CRCs symbolic" % (pattern or "-", nstages))
     eng, st = c08.mk_engine()
     sizes = [eng.sym_int("size%d" % i, 40) for i in range(n)]
-    names = ["d%d/m%d.bin" % (i % 2, i) for i in range(n)]
+    names = c07.session_names(n)
 
     def harness(e):
         st.pop("compressors", None)
@@ -578,7 +578,7 @@ def units(tier):
         us.append(Unit("1.aes_decompress[%d chunks]" % k, M, "aes_decompress", dict(k=k), 1800))
     for ns, reads in ([(1, 2), (2, 2), (3, 1)] if tier == "quick" else [(1, 3), (2, 3), (3, 2), (4, 2)]):
         us.append(Unit("2.compressor_loop[%d stages,%d reads]" % (ns, reads), M, "compressor_loop", dict(nstages=ns, reads=reads), 1800))
-    for k, hon, ns in ([(2, True, 1), (2, False, 1), (3, True, 1), (2, False, 2)] if tier == "quick" else
+    for k, hon, ns in ([(2, True, 1), (2, False, 1), (3, True, 1), (3, False, 1), (2, False, 2)] if tier == "quick" else
                        [(2, True, 1), (2, False, 1), (3, True, 1), (3, False, 1), (2, False, 2), (2, True, 2), (4, True, 1)]):
         us.append(Unit("3.decompressor[%d calls,%s,%d stage]" % (k, "honour" if hon else "ignore", ns), M, "decompressor_calls",
                        dict(k=k, honour=hon, nstages=ns), 1800))
